@@ -90,6 +90,9 @@ class MultiCrossBlockRepeat(Block):
         self.alignment = normalize_alignment(who, alignment)
 
         crossings = [c for c in crossings if len(c) > 0]
+        # The geometry of this block is recorded in its constraints (see below); use private
+        # copies, so that a constraint object given to several blocks gets each block's own geometry
+        constraints = [copy.copy(ct) for ct in constraints]
 
         from sweetpea._internal.constraint import Cross, Consistency, Sustain
         from sweetpea._internal.derivation_processor import DerivationProcessor
